@@ -153,6 +153,17 @@ class SumAgg:
     return (state[0], state[1])
 
 
+class HalfSumAgg(SumAgg):
+  """SumAgg in units of one half: exact for columns holding integers and k + 0.5 values (e.g. a fractional fill value)."""
+
+  def update_state(self, state, *cols):
+    state = list(state)
+    for c in cols:
+      state[0] += sum(int(round(float(x) * 2)) for x in c)
+    state[1] += len(cols[0])
+    return state
+
+
 class RowSum:
   """Exact row-wise aggregate: (sum of all given scalar inputs, number of rows)."""
 
